@@ -20,7 +20,7 @@ def tally(prefix):
         first_ok += bool(tr) and tr[0]["result"].startswith("CAUGHT")
         final_ok += any(t["result"].startswith("CAUGHT") for t in tr)
     return tot, first_ok, final_ok
-r1, r2, r3, r4 = tally("C*-*"), tally("R2-C*-*"), tally("R3-C*-*"), tally("R4-C*-*")
+r1, r2, r3, r4, r5 = tally("C*-*"), tally("R2-C*-*"), tally("R3-C*-*"), tally("R4-C*-*"), tally("R5-C*-*")
 summary = f"""Round 1 (`C??-n`, two changes per property, free choice of defect): {r1[0]} changes, {r1[1]} caught at the
 first trial, {r1[2]} caught after strengthening. Round 2 (`R2-C??-n`, two more per property; the agents were
 asked for defects that need *scale, a long history or an unusual-but-legal input* to manifest, because
@@ -37,7 +37,14 @@ iteration order): {r4[0]} changes, {r4[1]} caught at the first trial, {r4[2]} ca
 misses were spellings no generator produced (empty tag, `csp=`, whitespace after `##`, upper-case schemes,
 i32::MIN priorities, regex entries in `domain=`, combining marks in identifiers, `Duration::MAX`), two places
 where an oracle re-used the parser's own reading of a rule (C14 types, C15 directive: both now re-read the
-rule text), and tie cases that were skipped instead of being checked for determinism. Apart from those two oracle weaknesses every miss was a generator-reach problem (sizes, depths,
+rule text), and tie cases that were skipped instead of being checked for determinism. Round 5 (`R5-C??-n`;
+"a different kind from the four above": defaults, symmetric counterparts, second matches, aliasing between
+representations, early exits, off-by-one at the ends, state left by a failed operation): {r5[0]} changes,
+{r5[1]} caught at the first trial, {r5[2]} caught after strengthening, and one (R5-C11-1) neutralised: the
+mixed-case host names generated to catch it made C11 fail on the unchanged tree instead (`||WWW.host^`, a genuine
+defect, fixed in /repo), after which the seeded change no longer changes behaviour. Many round-5 changes
+re-discovered earlier root causes (first-match-then-tag-test, empty pattern lost in fusion, tags dropped by a
+failed load, content-keyed regex cache), which is why most were caught at once. Apart from those two oracle weaknesses every miss was a generator-reach problem (sizes, depths,
 lengths, histories, entry points, spellings); each strengthening widened the generated domain and was followed
 by a multi-seed silence run on the unchanged tree.
 
